@@ -366,7 +366,7 @@ class CppModel:
         src = emit_harness(self.ns, self.versions, self.protos, self.copyto)
         with open(os.path.join(self.cppdir, "verif_harness_main.cc"), "w") as f:
             f.write(src)
-        flags = ["-std=c++17", opt, "-w", "-I" + self.cppdir, "-I" + SHIMS, "-I" + JSON_INC]
+        flags = ["-std=c++17", opt, "-w", "-ftrivial-auto-var-init=pattern", "-I" + self.cppdir, "-I" + SHIMS, "-I" + JSON_INC]
         if sanitize:
             flags += ["-fsanitize=address,undefined", "-fno-sanitize-recover=all", "-fno-omit-frame-pointer", "-g1"]
         self.sanitize = sanitize
